@@ -6,7 +6,9 @@ use crate::frame::{ConnectPayload, Frame, Payload, PushPayload};
 use crate::loom::{Arc, AtomicBool, AtomicU32, AtomicWaker, Mutex, RwLock};
 use crate::timing::{OptionalDuration, TimestampProvider};
 use crate::ws::{Message, WebSocket};
-use crate::{BindRequest, Datagram, Error, EstablishedStreamData, FlowSlot, MuxStream, Result};
+use crate::{
+    BindRequest, Datagram, DroppedFlow, Error, EstablishedStreamData, FlowSlot, MuxStream, Result,
+};
 #[cfg(feature = "tokio-rt")]
 use alloc::{boxed::Box, string::ToString};
 use bytes::Bytes;
@@ -38,7 +40,7 @@ pub struct TaskData<S: WebSocket, T: TimestampProvider> {
     // To be taken out when the task is spawned
     pub(crate) tx_msg_rx: mpsc::UnboundedReceiver<Message>,
     // To be taken out when the task is spawned
-    pub(crate) dropped_flows_rx: mpsc::UnboundedReceiver<u32>,
+    pub(crate) dropped_flows_rx: mpsc::UnboundedReceiver<DroppedFlow>,
 }
 
 impl<S, T> TaskData<S, T>
@@ -99,7 +101,7 @@ pub struct Task<S: WebSocket, T: TimestampProvider> {
     pub tx_msg_tx: mpsc::UnboundedSender<Message>,
     /// See `Multiplexor::dropped_flows_tx`
     /// `Task` needs it in the task for creating `MuxStream`s
-    pub dropped_flows_tx: mpsc::UnboundedSender<u32>,
+    pub dropped_flows_tx: mpsc::UnboundedSender<DroppedFlow>,
     /// See `Multiplexor::con_recv_stream_tx`
     pub con_recv_stream_tx: mpsc::Sender<MuxStream>,
     /// Time that the last `Pong` was received.
@@ -133,7 +135,7 @@ impl<S: WebSocket, T: TimestampProvider> Task<S, T> {
     )]
     async fn start(
         self,
-        mut dropped_flows_rx: mpsc::UnboundedReceiver<u32>,
+        mut dropped_flows_rx: mpsc::UnboundedReceiver<DroppedFlow>,
         mut tx_msg_rx: mpsc::UnboundedReceiver<Message>,
     ) -> Result<()> {
         let (should_drain_frame_rx, res) = futures_util::select_biased! {
@@ -174,17 +176,17 @@ impl<S: WebSocket, T: TimestampProvider> Task<S, T> {
     #[inline]
     async fn process_dropped_flows_task(
         &self,
-        dropped_flows_rx: &mut mpsc::UnboundedReceiver<u32>,
+        dropped_flows_rx: &mut mpsc::UnboundedReceiver<DroppedFlow>,
     ) {
-        while let Some(flow_id) = dropped_flows_rx.recv().await {
-            if flow_id == 0 {
+        while let Some(dropped) = dropped_flows_rx.recv().await {
+            if dropped.flow_id == 0 {
                 // `flow_id` is `0`, which means the multiplexor itself is being dropped.
                 debug!("mux dropped");
                 // If this returns, our end is dropped, but we should still try to flush everything we
                 // already have in the `frame_rx` before closing.
                 return;
             }
-            self.close_flow(flow_id, false);
+            self.close_dropped_flow(&dropped);
         }
         // None: only happens when the last sender (i.e. `dropped_flows_tx` in `Task`)
         // is dropped, which should not happen in normal circumstances because `Task::drop`
@@ -300,7 +302,7 @@ impl<S: WebSocket, T: TimestampProvider> Task<S, T> {
         should_drain_msg_rx: bool,
         connection_broken: bool,
         mut tx_msg_rx: mpsc::UnboundedReceiver<Message>,
-        mut dropped_flows_rx: mpsc::UnboundedReceiver<u32>,
+        mut dropped_flows_rx: mpsc::UnboundedReceiver<DroppedFlow>,
     ) {
         debug!("closing all connections");
         // We first make sure the streams can no longer send
@@ -366,8 +368,8 @@ impl<S: WebSocket, T: TimestampProvider> Task<S, T> {
         });
         // To clean up, we also drain the `dropped_flows_rx` channel
         dropped_flows_rx.close();
-        while let Some(flow_id) = dropped_flows_rx.recv().await {
-            debug!("got dropped flow {flow_id:08x} after mux drop");
+        while let Some(dropped) = dropped_flows_rx.recv().await {
+            debug!("got dropped flow {:08x} after mux drop", dropped.flow_id);
         }
     }
 
@@ -726,6 +728,30 @@ impl<S: WebSocket, T: TimestampProvider> Task<S, T> {
             self.close_flow_local(removed, flow_id, inhibit_rst);
         } else {
             debug!("flow_id {flow_id:08x} not found, nothing to close");
+        }
+    }
+
+    /// Close the flow of a dropped `MuxStream`, unless its flow ID now belongs to something else.
+    /// The peer may have closed that flow long ago (`Reset`, window overrun), and the freed ID may
+    /// since have been taken by a new stream or request, which the late drop must not touch.
+    #[tracing::instrument(skip_all, level = "trace")]
+    #[inline]
+    fn close_dropped_flow(&self, dropped: &DroppedFlow) {
+        let flow_id = dropped.flow_id;
+        let mut flows = self.flows.write();
+        let same_stream = matches!(
+            flows.get(&flow_id),
+            Some(FlowSlot::Established(stream_data))
+                if Arc::ptr_eq(&stream_data.finish_sent, &dropped.finish_sent)
+        );
+        if !same_stream {
+            debug!("flow_id {flow_id:08x} already closed, nothing to close");
+            return;
+        }
+        let removed = flows.remove(&flow_id);
+        drop(flows);
+        if let Some(removed) = removed {
+            self.close_flow_local(removed, flow_id, false);
         }
     }
 
